@@ -456,7 +456,7 @@ Proof. destruct c; reflexivity. Qed.
 
 Lemma core_user w tag a text : core (user_step w tag a text) = cuser (core w) tag a.
 Proof.
-  destruct w as [w0 w1 w2 w3 w4 w5 w6 w7 w8 w9 w10 w11 w12 w13 w14 w15 w16 w17 w18 w19 w20 w21].
+  destruct w as [w0 w1 w2 w3 w4 w5 w6 w7 w8 w9 w10 w11 w12 w13 w14 w15 w16 w17 w18 w19 w20 w21 w22].
   unfold user_step, cuser, core, expect_of. cbv zeta. fold (entry_of_args a).
   cbn [sw_stack sw_expect sw_popped_modal sw_failed sw_ready sw_closed_pending sw_pframes sw_modal sw_replaced
        sw_req sw_blocking sw_typed sw_line sw_istack sw_processing sw_handoff sw_received sw_fired sw_must_input
@@ -756,11 +756,11 @@ Section Screens.
   Definition quiet_tag (tag : nat) : bool :=
     (tag =? T_PROMPT)%nat || (tag =? T_INPUT)%nat || (tag =? T_MODAL_RETURN)%nat || (tag =? T_REFUSED)%nat ||
     (tag =? T_READY)%nat || (tag =? T_GOT)%nat || (tag =? T_MARK)%nat || (tag =? T_ASK)%nat ||
-    (tag =? T_REQ)%nat || (tag =? T_ACTION)%nat.
+    (tag =? T_REQ)%nat || (tag =? T_ACTION)%nat || (tag =? T_WAITED)%nat.
 
   Lemma quiet_tag_cases tag : quiet_tag tag = true ->
     tag = T_PROMPT \/ tag = T_INPUT \/ tag = T_MODAL_RETURN \/ tag = T_REFUSED \/ tag = T_READY \/ tag = T_GOT \/
-    tag = T_MARK \/ tag = T_ASK \/ tag = T_REQ \/ tag = T_ACTION.
+    tag = T_MARK \/ tag = T_ASK \/ tag = T_REQ \/ tag = T_ACTION \/ tag = T_WAITED.
   Proof. unfold quiet_tag. rewrite !orb_true_iff, !Nat.eqb_eq. tauto. Qed.
 
   Lemma cstep_quiet c tag a t : quiet_tag tag = true -> cstep c (EUser tag a t) = c.
@@ -1139,7 +1139,8 @@ Section Screens.
       unfold start_thread. do 3 wstep.
       destruct (st_typed u) as [|l r].
       - wstep. ic_view HG.
-      - do 3 wstep. ic_view HG.
+      - do 2 wstep.
+        match goal with |- wpc _ (if ?x then _ else _) _ _ _ => destruct x end; wstep; ic_view HG.
     Qed.
 
 
@@ -1279,7 +1280,7 @@ Section Screens.
     Proof.
       intros Hclose. induction c as [c IHc] using scmd_ind'. intros Hw self count.
       apply spec_intro. intros Ps pf cc u HI.
-      destruct c as [sc a|sc a|sc a|sc a| | | | | | | | |o|o| | | | |k t e]; cbn [do_scmd].
+      destruct c as [sc a|sc a|sc a|sc a| | | | | | | | |o|o| |tb|hh sk|hh| | | |k t e]; cbn [do_scmd].
       - (* push *)
         ic_open HI pm rdy HG. wstep. apply wpc_ev_op; qstep.
         change (expect_of O_PUSH sc a _) with [XAppend sc a (Some false)].
@@ -1345,6 +1346,22 @@ Section Screens.
       - ic_open HI pm rdy HG. repeat wstep. ic_view HG.
       - ic_open HI pm rdy HG. repeat wstep. ic_view HG.
       - wcall (get_input_blocking_spec self) Ps pf HI1 x; [exact HI | exact HI1 | exact HI1].
+      - (* type-ahead flag *) ic_open HI pm rdy HG. repeat wstep. ic_view HG.
+      - (* the application's own InputHandler object asks *)
+        ic_open HI pm rdy HG. unfold handler_ask. wstep.
+        destruct (hlookup hh (st_hobj u)) as [m|].
+        + wcall (handler_get_input_spec m sk) Ps pf HI1 x; [ic_view HG | exact HI1 | exact HI1].
+        + wcall (new_input_handler_spec None self false
+                   (fun m => wr (fun u0 => u0 <| st_hobj := (hh, m) :: st_hobj u0 |>);; handler_get_input m sk)) Ps pf HI1 x;
+            [ | ic_view HG | exact HI1 | exact HI1].
+          intros m. apply spec_intro. intros Ps' pf' c' u' HI'. ic_open HI' pm' rdy' HG'. repeat wstep.
+          wcall (handler_get_input_spec m sk) Ps' pf' HI2 x; [ic_view HG' | exact HI2 | exact HI2].
+      - (* ... and waits *)
+        ic_open HI pm rdy HG. unfold handler_wait. wstep.
+        destruct (hlookup hh (st_hobj u)) as [m|]; [|wstep; ic_view HG].
+        wstep. apply (wpc_while_inv _ _ Ps pf); [apply HAPI | ic_view HG |].
+        intros o c2 u2 Ho1 Ho2 HI2. destruct o as [|x| |]; try congruence; qstep; [|exact HI2].
+        ic_open HI2 pm2 rdy2 HG2. repeat wstep. ic_view HG2.
       - ic_open HI pm rdy HG. repeat wstep. ic_view HG.
       - ic_open HI pm rdy HG. repeat wstep. ic_view HG.
       - ic_open HI pm rdy HG. repeat wstep. ic_view HG.
